@@ -110,10 +110,14 @@ impl Iterator for QueryIterator {
                     author_filter,
                     selector,
                 } => loop {
-                    // get the next entry from the query range, filtered by the author filter
+                    // get the next entry from the query range. for flat queries it is filtered by
+                    // the author filter here; for latest-per-key queries the author filter is
+                    // applied *after* the grouping (see the note on [`Query`]).
+                    let filter_before_grouping = selector.is_none();
                     let next = range
                         .next_filtered(&self.query.sort_direction, |(_ns, _key, author)| {
-                            author_filter.matches(&(AuthorId::from(author)))
+                            !filter_before_grouping
+                                || author_filter.matches(&(AuthorId::from(author)))
                         });
 
                     // early-break if next contains Err
@@ -132,6 +136,14 @@ impl Iterator for QueryIterator {
                             SelectorRes::Some(res) => Some(res),
                         },
                     };
+
+                    // latest-per-key: the winner of a key is only emitted if it passes the author
+                    // filter.
+                    if !filter_before_grouping
+                        && matches!(&next, Some(e) if !author_filter.matches(&e.author()))
+                    {
+                        continue;
+                    }
 
                     // skip the entry if empty and no empty entries requested
                     if !self.query.include_empty && matches!(&next, Some(e) if e.is_empty()) {
